@@ -15,7 +15,14 @@ Inductive walk_obs :=
 | WObsFile (locs : list (list string * span)) (decls : list (N * N))   (* pre-order location tree; (kind, size) per element *)
 | WObsErrs (from_parser : bool) (es : list span).
 
-Inductive cwalk_case := CWalk (input : list N) (o : walk_obs).
+Inductive cwalk_case :=
+| CWalk (input : list N) (o : walk_obs)
+(* the file compiled ALONE as a package of its own (CompilePackage): accepted or not; when it failed in the conversion
+   stage, the positions of the conversion errors.  Against the whole front end with the walker model inside and the
+   file-alone resolver: one direction only (the converter model abstracts names and values, the real converter
+   rejects more): what the model rejects the compiler rejects, every conversion error of the model is among the
+   compiler's, at the same position; hence what the compiler accepts the model accepts *)
+| CFull (input : list N) (accepted conv_stage : bool) (es : list span).
 
 Fixpoint flatten_loc (p : list string) (t : loc) : list (list string * span) :=
   match t with
@@ -53,6 +60,15 @@ Definition pair_eqb (a b : N * N) : bool := N.eqb (fst a) (fst b) && N.eqb (snd 
 
 Definition cwalk_check (c : cwalk_case) : bool :=
   match c with
+  | CFull input accepted conv_stage es =>
+      match front_end j5s_walk_alone true input with
+      | Ok (FEConverted v _) => match v with VOk => true | _ => false end
+      | Ok (FEErrors SConvert ms) =>
+          negb accepted && (negb conv_stage || forallb (fun m => existsb (wspan_eqb m) es) ms)
+      | Ok (FEErrors _ _) => negb accepted
+      | Err _ => true
+      | _ => false
+      end
   | CWalk input o =>
       match parse_file input true with
       | Ok p =>
